@@ -69,10 +69,12 @@ Theorem C08_quick_slab_inv : forall k ncyc c,
   run_ops k fx ncyc ops hints st = inl st' -> inv k c c st'.
 Proof. exact run_ops_inv. Qed.
 
-(* The full statement: QuickPartitioner always returns, and returns a good partition. *)
+(* The full statement: for a valid replay of the set-iteration order QuickPartitioner always
+   returns, and returns a good partition (EBadHint = the replayed order is not a permutation of
+   the computed overlapping set, i.e. not a run of the code). *)
 Definition C08_quick_correct_full (fx : bool) : Prop :=
   forall k nq ncyc c hints, 2 <= k -> wf_input nq ncyc c ->
-  (forall st o, In o (map snd c) -> True) ->
+  quick k fx nq ncyc c hints = inr EBadHint \/
   exists o, quick k fx nq ncyc c hints = inl o /\ good_partition k (map snd c) o.
 
 (* What is proved: correctness GIVEN that all bins are emitted (no RuntimeError).
@@ -102,6 +104,9 @@ Theorem C08_quick_all_emitted_refuted :
   quick 3 false 4 5 deadlock_circuit deadlock_hints = inr EPending.
 Proof. exact quick_all_emitted_refuted. Qed.
 
+Theorem C08_quick_correct_full_refuted : ~ C08_quick_correct_full false.
+Proof. exact quick_correct_full_refuted. Qed.
+
 (* non-vacuity: a well-formed circuit with a barrier and a 3-qudit gate on which the
    unchanged model returns a partition (so the hypotheses of C08_quick_correct_partial are
    satisfiable), and the repaired model (fx = true) partitions the deadlock witness *)
@@ -110,7 +115,7 @@ Example C08_quick_nonvacuous :
             (2%Z, bar [0; 1]); (3%Z, cx 0 1)] in
   wf_input 4 4 c /\
   quick 2 false 4 4 c [[]; []; [0; 1]; [0; 2]; []] =
-    inl [Block [0; 1] [cx 0 1]; Block [2] [mkOp 3 [2] 1 KGate]; Block [1; 2; 3] [mkOp 4 [1; 2; 3] 1 KGate];
+    inl [Block [0; 1] [cx 0 1]; Block [1; 2; 3] [mkOp 3 [2] 1 KGate; mkOp 4 [1; 2; 3] 1 KGate];
          Leaf (bar [0; 1]); Block [0; 1] [cx 0 1]].
 Proof. split; [apply wf_inputb_sound; vm_compute; reflexivity| vm_compute; reflexivity]. Qed.
 
